@@ -16,6 +16,7 @@
 //!   fm <max_passes> <max_moves> <max_imbalance bits> <max_bad> A <checked|unchecked> <int|i64|f64>
 //!      <size> <nx> <xadj…> <na> <adjncy…> <nd> <data…> W <data> I <n> <p…>
 //!   strerror <code>
+//!   rel <any of the above>   the same op through the RELEASE build of the library (second C process)
 //! The recorded op carries the reference outcome of the Rust API after a token `R`
 //! (`ok <n> <ids>` | `okties` | `err <Variant> <n> <ids>` | `herr InvalidOrder <n> <ids>` |
 //! `panic` | `na` = no Rust-level counterpart, the C prologue must reject | `nulladj`), which is
@@ -23,7 +24,8 @@
 //! from `R` on is dropped and recomputed.
 //!
 //! out = the C driver's line: `<CODE>(<n>) | <ids>`, `CRASH(2)`, `NULL_ADJNCY`, `strerror <n> <msg>`;
-//! for FiducciaMattheyses inputs on which hash-set order can matter (ties) `OK(0) ~ties`.
+//! for FiducciaMattheyses inputs on which hash-set order can matter (ties) `OK(0) ~ties`;
+//! for a `rel` op whose dev-profile reference panics: `survived` (the code is not compared there).
 
 use crate::common::*;
 use coupe::nalgebra::SVector;
@@ -705,13 +707,18 @@ const CAPI_DIR: &str = "/verif/.build/capi";
 const DRIVER_SRC: &str = "/verif/harness/capi/driver.c";
 
 /// Builds `/repo/ffi` (current working tree) and the C driver. Err = build log tail.
-fn build_capi() -> Result<String, String> {
+fn build_capi(release: bool) -> Result<String, String> {
     std::fs::create_dir_all(CAPI_DIR).map_err(|e| e.to_string())?;
     // one builder at a time (several checks may run concurrently)
     let lock = std::fs::File::create(format!("{}/build.lock", CAPI_DIR)).map_err(|e| e.to_string())?;
     let _ = lock.lock();
+    let mut args = vec!["build", "--offline", "-p", "coupe-ffi", "--manifest-path", "/repo/Cargo.toml", "--target-dir", FFI_TARGET];
+    if release {
+        // the library `ffi/Makefile` builds and installs
+        args.push("--release");
+    }
     let out = Command::new("cargo")
-        .args(["build", "--offline", "-p", "coupe-ffi", "--manifest-path", "/repo/Cargo.toml", "--target-dir", FFI_TARGET])
+        .args(&args)
         .current_dir("/repo")
         .env("CARGO_NET_OFFLINE", "true")
         .env_remove("RUSTFLAGS")
@@ -720,14 +727,14 @@ fn build_capi() -> Result<String, String> {
     if !out.status.success() {
         let log = String::from_utf8_lossy(&out.stderr);
         let tail: String = log.chars().rev().take(1500).collect::<String>().chars().rev().collect();
-        return Err(format!("cargo build of /repo/ffi failed: {}", tail));
+        return Err(format!("cargo build{} of /repo/ffi failed: {}", if release { " --release" } else { "" }, tail));
     }
-    let libdir = format!("{}/debug", FFI_TARGET);
+    let libdir = format!("{}/{}", FFI_TARGET, if release { "release" } else { "debug" });
     if !std::path::Path::new(&format!("{}/libcoupe.so", libdir)).exists() {
         return Err("libcoupe.so was not produced by the build of /repo/ffi".into());
     }
-    let exe = format!("{}/driver", CAPI_DIR);
-    let tmp = format!("{}/driver.{}.tmp", CAPI_DIR, std::process::id());
+    let exe = format!("{}/driver{}", CAPI_DIR, if release { "-release" } else { "" });
+    let tmp = format!("{}.{}.tmp", exe, std::process::id());
     let out = Command::new("clang")
         .args([
             "-std=c11",
@@ -763,14 +770,19 @@ struct Capi {
     lines: Receiver<Option<String>>,
 }
 
-static BUILD: OnceLock<Result<String, String>> = OnceLock::new();
-static CAPI: Mutex<Option<Capi>> = Mutex::new(None);
+/// index 0: dev library, 1: release library
+static BUILD: [OnceLock<Result<String, String>>; 2] = [OnceLock::new(), OnceLock::new()];
+static CAPI: [Mutex<Option<Capi>>; 2] = [Mutex::new(None), Mutex::new(None)];
 
-fn spawn_capi(exe: &str) -> Result<Capi, String> {
+fn stderr_log(release: bool) -> String {
+    format!("{}/driver{}.stderr", CAPI_DIR, if release { "-release" } else { "" })
+}
+
+fn spawn_capi(exe: &str, release: bool) -> Result<Capi, String> {
     let errlog = std::fs::OpenOptions::new()
         .create(true)
         .append(true)
-        .open(format!("{}/driver.stderr", CAPI_DIR))
+        .open(stderr_log(release))
         .map_err(|e| e.to_string())?;
     let mut child = Command::new(exe)
         .stdin(Stdio::piped())
@@ -810,15 +822,16 @@ enum CRes {
     Build(String),
 }
 
-fn call_c(op_line: &str) -> CRes {
-    let exe = match BUILD.get_or_init(build_capi) {
+fn call_c(release: bool, op_line: &str) -> CRes {
+    let which = release as usize;
+    let exe = match BUILD[which].get_or_init(|| build_capi(release)) {
         Ok(e) => e.clone(),
         Err(m) => return CRes::Build(m.clone()),
     };
-    let mut g = CAPI.lock().unwrap_or_else(|e| e.into_inner());
+    let mut g = CAPI[which].lock().unwrap_or_else(|e| e.into_inner());
     if g.is_none() {
-        let _ = std::fs::remove_file(format!("{}/driver.stderr", CAPI_DIR));
-        match spawn_capi(&exe) {
+        let _ = std::fs::remove_file(stderr_log(release));
+        match spawn_capi(&exe, release) {
             Ok(c) => *g = Some(c),
             Err(m) => return CRes::Build(m),
         }
@@ -839,7 +852,7 @@ fn call_c(op_line: &str) -> CRes {
     }
     let status = c.child.wait().map(|s| s.to_string()).unwrap_or_else(|e| e.to_string());
     *g = None; // the next op starts a fresh child
-    let log = std::fs::read_to_string(format!("{}/driver.stderr", CAPI_DIR)).unwrap_or_default();
+    let log = std::fs::read_to_string(stderr_log(release)).unwrap_or_default();
     let tail: String = log.chars().rev().take(400).collect::<String>().chars().rev().collect();
     CRes::Died(format!("{}; stderr tail: {}", status, tail.replace('\n', " / ")))
 }
@@ -891,23 +904,31 @@ fn parse_c_ids(l: &str) -> Option<Vec<usize>> {
     ids.split_whitespace().map(|t| t.parse().ok()).collect()
 }
 
-pub fn run_op(ctx: &mut Ctx, op_line: &str) {
+pub fn run_op(ctx: &mut Ctx, full_line: &str) {
+    // `rel <op>`: the same op through the RELEASE build of the library (the one `ffi/Makefile`
+    // installs); the reference stays the Rust API in this (dev-profile) process
+    let (release, op_line) = match full_line.trim_start().strip_prefix("rel ") {
+        Some(rest) => (true, rest),
+        None => (false, full_line),
+    };
     let Some(op) = parse_op(op_line) else {
-        ctx.record(op_line.to_string(), "bad-op".into(), false);
+        ctx.record(full_line.to_string(), "bad-op".into(), false);
         return;
     };
     let bare = format_op(&op);
     let r = reference(&op);
+    let prefix = if release { "rel " } else { "" };
     let recorded = match op {
-        Op::Strerror(_) => bare.clone(),
-        _ => format!("{} R {}", bare, ref_string(&r)),
+        Op::Strerror(_) => format!("{}{}", prefix, bare),
+        _ => format!("{}{} R {}", prefix, bare, ref_string(&r)),
     };
-    let c = call_c(&bare);
+    let c = call_c(release, &bare);
+    let lib = if release { "RELEASE library: " } else { "" };
     let cl = match c {
         CRes::Line(l) => l,
         CRes::Died(why) => {
             let idx = ctx.record(recorded, "child-died".into(), true);
-            ctx.fail(idx, "ffi-abort", format!("the C driver process died during the call ({}) — Rust reference: {}", why, ref_string(&r)));
+            ctx.fail(idx, "ffi-abort", format!("{}the C driver process died during the call ({}) — Rust reference: {}", lib, why, ref_string(&r)));
             return;
         }
         CRes::Hang => {
@@ -921,7 +942,22 @@ pub fn run_op(ctx: &mut Ctx, op_line: &str) {
             return;
         }
     };
-    ctx.count(&format!("code:{}", cl.split(|ch| ch == ' ' || ch == '(').next().unwrap_or("")));
+    ctx.count(&format!("{}code:{}", if release { "release:" } else { "" }, cl.split(|ch| ch == ' ' || ch == '(').next().unwrap_or("")));
+    if release {
+        if let Ref::Panic(m) = &r {
+            // The dev-profile reference panics.  Without overflow checks and debug assertions the
+            // release library may or may not (a wrapped sum is not a panic there), so the code is
+            // not compared: what the property requires is that the caller SURVIVES the call.
+            ctx.count(&format!("release_on_dev_panic:{}", if cl == code("CRASH") { "CRASH" } else { "other-code" }));
+            let idx = ctx.record(recorded, "survived".into(), true);
+            if cl.contains("OVERRUN") {
+                ctx.fail(idx, "ffi-overrun", format!("{}wrote past the end of the caller's array (dev reference panics: {})", lib, m));
+            } else if cl == "bad-op" {
+                ctx.fail(idx, "driver-bad-op", "the C driver rejects an op the harness accepts".into());
+            }
+            return;
+        }
+    }
     ctx.count(&format!(
         "ref:{}",
         match &r {
@@ -1250,8 +1286,49 @@ pub fn generate(ctx: &mut Ctx) {
     ));
 
     // ---- 2. random valid cases, larger
-    let big = ctx.budget(40, 300);
     for _ in 0..ctx.budget(150, 2500) {
+        let op = gen_valid(ctx);
+        ctx.count("random_valid");
+        emit(ctx, op);
+    }
+    gen_errors(ctx);
+
+    // ---- 4. inputs that make the library panic (or are suspected to)
+    for _ in 0..ctx.budget(60, 600) {
+        let (kind, op) = gen_panic(ctx);
+        ctx.count(&format!("panic_stream:kind{}", kind));
+        emit(ctx, op);
+    }
+
+    // ---- 5. the RELEASE library (what `ffi/Makefile` builds and installs): the panic stream and a
+    // sample of ordinary cases through a second C process linked with target/release/libcoupe.so
+    for _ in 0..ctx.budget(150, 900) {
+        let (kind, op) = gen_panic(ctx);
+        ctx.count(&format!("release:panic_stream:kind{}", kind));
+        emit_rel(ctx, op);
+    }
+    for _ in 0..ctx.budget(80, 600) {
+        let op = gen_valid(ctx);
+        ctx.count("release:random_valid");
+        emit_rel(ctx, op);
+    }
+    for c in 0..9 {
+        emit_rel(ctx, Op::Strerror(c));
+    }
+    ctx.notes.push("release library: the dev-profile Rust API stays the reference; where it panics the release result is only required to come back (recorded as `survived`; overflow checks and debug assertions are off there), elsewhere code and array are compared exactly".into());
+    ctx.notes.push("FiducciaMattheyses: ids are compared exactly only on inputs whose vertex weights rule out ties (distinct powers of two, or B+2^i); on the others (hash-set iteration order is per-process random) only the code, ids in {0,1} and cut <= initial cut are compared — counted as fm_tie_possible_loose_compare".into());
+    ctx.notes.push("f64 weights are integer-valued and point coordinates are integer multiples of the point count, so that rayon's reduction order cannot change a float sum (the comparison is between two processes)".into());
+}
+
+fn emit_rel(ctx: &mut Ctx, op: Op) {
+    let s = format!("rel {}", format_op(&op));
+    run_op(ctx, &s);
+}
+
+/// One larger random valid case.
+fn gen_valid(ctx: &mut Ctx) -> Op {
+    let big = ctx.budget(40, 300);
+    {
         let wrepr = *ctx.rng.pick(&REPRS);
         let prepr = *ctx.rng.pick(&[Repr::Arr, Repr::Arr, Repr::Fn, Repr::Fn, Repr::Const]);
         let wty = *ctx.rng.pick(&TYS);
@@ -1289,11 +1366,12 @@ pub fn generate(ctx: &mut Ctx) {
                 gen_fm(&mut ctx.rng, n, if wrepr == Repr::Const { Repr::Fn } else { wrepr }, wty, Ty::I64, family, true)
             }
         };
-        ctx.count("random_valid");
-        emit(ctx, op);
+        op
     }
+}
 
-    // ---- 3. errors the Rust API reports, and the C prologues
+/// ---- 3. errors the Rust API reports, and the C prologues
+fn gen_errors(ctx: &mut Ctx) {
     for _ in 0..ctx.budget(40, 400) {
         let wrepr = *ctx.rng.pick(&REPRS);
         let wty = *ctx.rng.pick(&TYS);
@@ -1367,15 +1445,22 @@ pub fn generate(ctx: &mut Ctx) {
         ctx.count("error_stream");
         emit(ctx, op);
     }
+}
 
-    // ---- 4. inputs that make the library panic (or are suspected to)
-    for _ in 0..ctx.budget(60, 600) {
+/// One input that makes the library panic (or is suspected to); returns its kind.
+fn gen_panic(ctx: &mut Ctx) -> (usize, Op) {
+    {
         let wrepr = *ctx.rng.pick(&REPRS);
         let prepr = *ctx.rng.pick(&REPRS);
         let n = 2 + ctx.rng.usize(8);
         let nan = f64::NAN;
-        let kind = ctx.rng.usize(10);
+        let kind = ctx.rng.usize(11);
         let op = match kind {
+            // a part count whose table cannot be allocated ("capacity overflow" is a panic, not an abort)
+            10 => {
+                let wty = *ctx.rng.pick(&TYS);
+                Op::Num { name: "greedy", parts: usize::MAX, tol: 0.0, ws: gen_weights(&mut ctx.rng, wrepr, wty, n, 9), init: vec![1; n] }
+            }
             // Hilbert with zero parts
             0 => Op::Hilbert { parts: 0, order: 4, pts: gen_points(&mut ctx.rng, prepr, 2, n, 20), ws: gen_weights(&mut ctx.rng, wrepr, Ty::F64, n, 9), init: vec![1; n] },
             // NaN / infinite coordinates
@@ -1454,9 +1539,6 @@ pub fn generate(ctx: &mut Ctx) {
                 }
             }
         };
-        ctx.count(&format!("panic_stream:kind{}", kind));
-        emit(ctx, op);
+        (kind, op)
     }
-    ctx.notes.push("FiducciaMattheyses: ids are compared exactly only on inputs whose vertex weights rule out ties (distinct powers of two, or B+2^i); on the others (hash-set iteration order is per-process random) only the code, ids in {0,1} and cut <= initial cut are compared — counted as fm_tie_possible_loose_compare".into());
-    ctx.notes.push("f64 weights are integer-valued and point coordinates are integer multiples of the point count, so that rayon's reduction order cannot change a float sum (the comparison is between two processes)".into());
 }
